@@ -845,4 +845,57 @@ theorem scanner_over_truncated_gzip (b : Nat) (h : 1 ≤ b) (name : C06.Path) (h
 example : Realises 2 [⟨2, none⟩, ⟨0, none⟩, ⟨1, some .fail⟩] [97, 10, 98] true := by
   unfold Realises; decide
 
+/-- The same for any stream handed to the scanner (`runStream`: what C06 uses for stdin and for every opened file):
+    lines and error count of C06's abstraction are the scanner's, for every script realising the stream. -/
+theorem scanner_over_stream (b : Nat) (h : 1 ≤ b) (name d : Bytes) (fails : Bool) (script : List Step)
+    (hr : Realises b script d fails) :
+    (Imm.run b d script).1.map (·.2) = (C06.runStream name d fails).lines ∧
+    (Imm.run b d script).2.2.errs = (C06.runStream name d fails).errs := by
+  have ho : C06.openFileToReader ⟨true, false, d, 0, d, fails⟩ false = some (.plain 0, false) := rfl
+  cases fails with
+  | false =>
+    have := scanner_over_opened_file b h false name ⟨true, false, d, 0, d, false⟩ (.plain 0) false ho script
+      (by simpa [C06.streamOf] using hr)
+    simpa [C06.streamOf, C06.runFile, C06.openFileToReader, C06.openFileToReaderG] using ⟨this.1, this.2.1⟩
+  | true =>
+    -- a failing stream: the gzip reader of a file whose decoder answers `(d, true)`
+    have hr' : failsFirst script = true ∧ (Imm.run b d script).2.2.delivered = d := by simpa [Realises] using hr
+    refine ⟨?_, ?_⟩
+    · show _ = splitLines d
+      rw [(imm_tokens_eq_split b d script h).1, hr'.2]
+    · show _ = 1
+      have hg : Good (Imm.init b ⟨d, script⟩) [] := good_init _ _ h
+      have heof := scanAll_eof _ _ hg (imm_terminates b d script h)
+      have hP := scanAll_closed closed_firstFailure_seen (d.length + script.length + 3) (d.length + script.length + 3) hg
+        (Or.inl ⟨by simp [Imm.init], by simpa [Imm.init] using hr'.1, by simp [Imm.init]⟩)
+      rcases hP with ⟨hne, _, _⟩ | ⟨h1, _⟩
+      · rw [hne] at heof; cases heof
+      · simpa [Imm.run] using h1
+
+/-- `Realises` is inhabited for EVERY stream and buffer size (so no theorem above is vacuous for any file): a reader
+    handing over one byte per `Read` and then failing (with a request for `w` more bytes) realises `(d, true)`; every
+    error-free script realises `(d, false)`. -/
+theorem realises_inhabited (b : Nat) (h : 1 ≤ b) (d : Bytes) (w : Nat) :
+    Realises b (byteScript d.length w) d true ∧
+    (∀ script : List Step, (∀ st ∈ script, st.err = none) → Realises b script d false) := by
+  refine ⟨?_, fun script hs => by simpa [Realises] using hs⟩
+  have hg : Good (Imm.init b ⟨d, byteScript d.length w⟩) [] := good_init _ _ h
+  have hstream := scanAll_closed (closed_stream d) (d.length + (byteScript d.length w).length + 3)
+      (d.length + (byteScript d.length w).length + 3) hg (by simp [Imm.init])
+  have hP := scanAll_closed (closed_byteScript w) (d.length + (byteScript d.length w).length + 3)
+      (d.length + (byteScript d.length w).length + 3) hg
+      (Or.inl ⟨by simp [Imm.init], d.length, by simp [Imm.init], by simp [Imm.init]⟩)
+  have heof := scanAll_eof _ _ hg (imm_terminates b d (byteScript d.length w) h)
+  have hrest : (Imm.run b d (byteScript d.length w)).2.2.rd.rest = [] := by
+    rcases hP with ⟨hne, _⟩ | hr
+    · rw [hne] at heof; cases heof
+    · exact hr
+  have hdel : (Imm.run b d (byteScript d.length w)).2.2.delivered = d := by
+    have := hstream
+    unfold Imm.run at hrest ⊢
+    rw [hrest] at this
+    simpa using this
+  simp only [Realises, if_true]
+  exact ⟨failsFirst_byteScript _ _, hdel⟩
+
 end Rare.C04
